@@ -210,6 +210,160 @@ def trajectory(job):
         ppath.unlink()
 
 
+# ---------------------------------------------------------------- observe - mutate - observe (wave 3)
+VALUES = [0.0, 1.0, -1.0, 2.5, -2.5, 0.5, 3.0, 0.1, 1e-05, 1e16, 1e22, 123456.789, -0.0, 5e-05, 1 / 3, -7.0, 42.0]
+
+
+def build_triplets(job, domain, ppath):
+    """the triplets of a `trajectory` job: (problem, triplets, joint, agents, exporter class, plan)"""
+    joint = job["mode"] == "joint"
+    rnd = random.Random(job.get("walk", {}).get("seed", 0))
+    if joint:
+        exporter = MultiAgentTrajectoryExporter(domain)
+        nagents = job.get("walk", {}).get("agents", 2)
+        plan = job.get("plan")
+        if plan is None:
+            problem = ProblemParser(ppath, domain).parse_problem()
+            plan = walk_joint(domain, problem, rnd, job["walk"]["cands"], job["walk"]["steps"], nagents, exporter)
+        problem = ProblemParser(ppath, domain).parse_problem()
+        texts = ["[" + ",".join(call_str(c) if c[0] != "nop" else "(nop )" for c in j) + "]" for j in plan]
+        triplets = exporter.parse_plan(problem, action_sequence=texts, allow_inapplicable_actions=True)
+        agents = ["agent%d" % i for i in range(max([len(j) for j in plan] + [nagents]))]
+        return problem, triplets, True, agents, MultiAgentTrajectoryExporter, plan
+    exporter = TrajectoryExporter(domain, allow_invalid_actions=bool(job.get("allow_invalid", False)))
+    plan = job.get("plan")
+    if plan is None:
+        problem = ProblemParser(ppath, domain).parse_problem()
+        plan = walk_single(domain, problem, rnd, job["walk"]["cands"], job["walk"]["steps"], exporter)
+    problem = ProblemParser(ppath, domain).parse_problem()
+    triplets = exporter.parse_plan(problem, action_sequence=[call_str(c) for c in plan])
+    return problem, triplets, False, None, TrajectoryExporter, plan
+
+
+def state_slots(triplets):
+    """the states of the trajectory, first to last; slot i lists the DISTINCT Python objects that play state i (in an
+    exporter's triplet list next_state i is previous_state i+1, in a parsed Observation the latter is a copy)"""
+    slots = [[triplets[0].previous_state]]
+    for i, t in enumerate(triplets):
+        objs = [t.next_state]
+        if i + 1 < len(triplets) and triplets[i + 1].previous_state is not t.next_state:
+            objs.append(triplets[i + 1].previous_state)
+        slots.append(objs)
+    return slots
+
+
+def choose_state_mutation(rnd, domain, objects, state):
+    """an in-place change that keeps the state inside the domain's vocabulary (type-correct arguments, no repeated
+    argument in a fluent): descriptor for ops_c14.apply_mutation.  Deterministic given rnd (everything is sorted)."""
+    from ops_c14 import fluent_vars
+    facts = sorted((g.name, tuple(g.object_mapping.values())) for grp in state.state_predicates.values() for g in grp)
+    fluents = sorted((f.name, tuple(fluent_vars(f))) for f in state.state_fluents.values())
+    names = sorted(objects)
+
+    def cands(t):
+        return [n for n in names if objects[n].type.is_sub_type(t)]
+
+    def random_args(sig, distinct):
+        args = []
+        for t in sig.values():
+            c = [n for n in cands(t) if not (distinct and n in args)]
+            if not c:
+                return None
+            args.append(rnd.choice(c))
+        return args
+    kinds = ["rebuild-dicts", "add-fact", "add-fact", "add-fact", "put-fluent"]
+    kinds += ["discard-fact"] * 4 + ["del-group"] if facts else []
+    kinds += ["set-value"] * 4 + ["del-fluent"] if fluents else []
+    for _ in range(6):
+        k = rnd.choice(kinds)
+        if k == "rebuild-dicts":
+            return {"kind": k, "reverse": rnd.random() < 0.5}
+        if k == "add-fact" and domain.predicates:
+            pname = rnd.choice(sorted(domain.predicates))
+            pr = domain.predicates[pname]
+            args = random_args(pr.signature, False)
+            if args is None:
+                continue
+            sig = [[p_, t.name] for p_, t in pr.signature.items()]
+            return {"kind": k, "key": pr.untyped_representation,
+                    "fact": {"name": pname, "sig": sig, "map": [[p_, o] for (p_, _), o in zip(sig, args)], "pos": True}}
+        if k == "discard-fact":
+            n, args = rnd.choice(facts)
+            return {"kind": k, "name": n, "args": list(args), "how": rnd.choice(["discard", "remove", "difference_update", "new-set"])}
+        if k == "del-group":
+            return {"kind": k, "name": rnd.choice(facts)[0], "how": rnd.choice(["del", "clear"])}
+        if k == "set-value":
+            n, args = rnd.choice(fluents)
+            return {"kind": k, "name": n, "args": list(args), "val": fhex(rnd.choice(VALUES))}
+        if k == "del-fluent":
+            n, args = rnd.choice(fluents)
+            return {"kind": k, "name": n, "args": list(args), "how": rnd.choice(["del", "pop"])}
+        if k == "put-fluent" and domain.functions:
+            fname = rnd.choice(sorted(domain.functions))
+            args = random_args(domain.functions[fname].signature, True)
+            if args is None:
+                continue
+            return {"kind": k, "args": args, "key": "(%s %s)" % (fname, " ".join(args)),
+                    "fluent": {"name": fname, "sig": [[o, objects[o].type.name] for o in args], "val": fhex(rnd.choice(VALUES)), "rep": []}}
+    return {"kind": "rebuild-dicts", "reverse": False}
+
+
+def omo(job):
+    """observe - mutate - observe on ONE trajectory: the triplet list (via 'triplets': as the exporter built it; via
+    'observation': made from the components of the Observation the library parsed from the exported file) is dumped,
+    exported, written, parsed back and compared (moment 0); then a state of it is changed IN PLACE through its public
+    attributes and the SAME list is dumped, exported, parsed back and compared again -- one moment per change."""
+    from ops_c14 import apply_mutation
+    main = job["main"]
+    dpath = write_tmp(main["domain_text"], name="domain")
+    ppath = write_tmp(main["problem_text"], name="problem")
+    try:
+        domain = DomainParser(dpath).parse_domain()
+        problem, triplets, joint, agents, cls, plan = build_triplets(main, domain, ppath)
+        if job.get("via") == "observation" and triplets:
+            path = write_tmp("", ".trajectory", name="first")
+            try:
+                cls(domain).export_to_file(triplets, path)
+                obs = TrajectoryParser(domain, problem).parse_trajectory(path, executing_agents=agents)
+            finally:
+                path.unlink()
+            # the exporter's objects stay alive and untouched; the observation's states are the ones under test
+            if joint:
+                triplets = [MultiAgentTrajectoryTriplet(c.previous_state, list(c.grounded_joint_action.actions), c.next_state)
+                            for c in obs.components]
+            else:
+                triplets = [TrajectoryTriplet(c.previous_state, c.grounded_action_call, c.next_state) for c in obs.components]
+
+        def moment():
+            try:
+                out = finish(domain, problem, triplets, joint, agents, cls)
+            except Exception as e:  # noqa
+                return exc(e)
+            out["agents"] = agents
+            out["plan"] = plan
+            return out
+        moments = [moment()]
+        applied = []
+        rnd = random.Random(job.get("mut_seed", 0))
+        objects = {**domain.constants, **problem.objects}
+        for _ in range(job.get("muts", 0) if triplets else 0):
+            slots = state_slots(triplets)
+            i = rnd.randrange(len(slots))
+            m = choose_state_mutation(rnd, domain, objects, slots[i][0])
+            done = []
+            for k, s in enumerate(slots[i]):
+                try:
+                    done.append({"value": apply_mutation(dict(m, target=k), slots[i])})
+                except Exception as e:  # noqa
+                    done.append(exc(e))
+            applied.append({"state": i, "objects": len(slots[i]), "mut": m, "done": done})
+            moments.append(moment())
+        return {"moments": moments, "applied": applied}
+    finally:
+        dpath.unlink()
+        ppath.unlink()
+
+
 def after_noise(job):
     """One job = one controlled order inside the worker process: first a whole unrelated round trip (build, export,
     parse back; usually with repeated-argument fluents -- the D07 area; its result is dropped), then the trajectory
